@@ -173,7 +173,7 @@ def several_in_one_file(ch, hh, ctx):
         raise Violation('C16.file', 'saving the histories loaded from one file gives a different text', rule='file_fixpoint')
 
 
-def omitted_steps(ch, st, hh, ctx):
+def omitted_steps(ch, st, hh, ctx, only_build=False):
     """Histories that leave out steps the reader can infer: folds (the player faces a bet and the next listed line is
     somebody else's) and free checks (where the next listed line is not a wager of the same player) are removed from the
     action list; iterating must complete them "in the documented way" - a check where checking is free, otherwise a
@@ -220,6 +220,8 @@ def omitted_steps(ch, st, hh, ctx):
         return
     h2 = dataclasses.replace(hh, actions=[a for i, a in enumerate(acts) if i not in drop])
     ctx.fault('omitted_steps', len(drop))
+    if only_build:
+        return h2
     end = replay_to_end(roundtrip(h2, 'history with omitted folds/checks')[0], 'history with omitted folds/checks')
 
     def plain(opslist):
